@@ -35,6 +35,24 @@ func MkValue(cls string, key string, id int) []byte {
 	}
 	recBody := func(rec int) int { return rec - 24 - len(key) }
 	switch {
+	case cls == "hA" || cls == "hB":
+		// two distinct values per key with the same 16-bit value hash (and length)
+		a := []byte("<" + key + "#collide-A-000000>")
+		if cls == "hA" {
+			return a
+		}
+		if b, ok := collideCache[key]; ok {
+			return b
+		}
+		want := store.Getvhash(a)
+		for i := 0; i < 1<<24; i++ {
+			b := []byte(fmt.Sprintf("<%s#collide-B-%06x>", key, i))
+			if store.Getvhash(b) == want {
+				collideCache[key] = b
+				return b
+			}
+		}
+		panic("no vhash collision found")
 	case cls == "s":
 		return []byte(tag)
 	case cls == "e":
@@ -73,6 +91,8 @@ func MkValue(cls string, key string, id int) []byte {
 	}
 	panic("unknown value class " + cls)
 }
+
+var collideCache = map[string][]byte{}
 
 // Mismatch describes a disagreement between implementation and model.
 type Mismatch struct {
@@ -116,6 +136,9 @@ func StepMutator(m *Machine, md *Model, o Op, step int) *Mismatch {
 			} else {
 				body = old.Body
 				flag = old.Flag
+				if o.Flag != 0 {
+					flag = o.Flag
+				}
 			}
 		} else {
 			body = MkValue(o.V, o.Key, md.NextID)
